@@ -399,20 +399,40 @@ def rule_aff_avg(ctx: Ctx) -> None:
                 g = kwarg(c, 'group')
                 ctx.check(g is not None and norm(g) == 'group', 'AFF-AVG', f, f'{m}: reduces over its group parameter', norm(c)[:120],
                           f'{m}: the allreduce does not use the group it was given (group={norm(g) if g is not None else "<default>"})', c)
+    # the callbacks, evaluated for every valuation of (average, symmetric): value / size of the group communicated on
+    # exactly when average, whatever the value of symmetric (scaling commutes with the triangular refill)
+    from kfv import symexec
+    from kfv.terms import Facts
+    from kfv.terms import Poly
     for m in ('allreduce', 'allreduce_bucketed'):
         f = p.get_func(f'distributed.TorchDistributedCommunicator.{m}')
-        inner = [h for h in p.funcs.values() if h.parent is f]
-        found = False
-        for h in inner:
-            for n in p.nodes(h):
-                if isinstance(n, ast.If) and norm(n.test) == 'average':
-                    found = True
-                    txt = ' '.join(norm(s) for s in n.body)
-                    ok = 'get_world_size(group)' in txt and ('1 / get_world_size(group)' in txt or '/ get_world_size(group)' in txt) and len(n.body) == 1
-                    ctx.check(ok, 'AFF-AVG', h, f'{m}: t / get_world_size(group)', txt[:100],
-                              f'{m}: the averaging callback computes `{txt[:90]}`; it must divide by the size of the group communicated on', n)
-        if not found:
-            ctx.violate('AFF-AVG', f, m, f'{m}: no `if average:` post-processing found: average=True would be ignored', f.node)
+        inner = [h for h in p.funcs.values() if h.parent is f and h.kind == 'nested']
+        if len(inner) != 1:
+            raise AnalysisIncomplete(f'{f.short}: expected one nested callback')
+        h = inner[0]
+        prm = h.params[0] if h.params else 'future_'
+        for avg in (True, False):
+            for sym in (True, False):
+                cb = symexec.SymCB(lambda c: None, None, None, None, Facts({}, None, {'average': avg, 'symmetric': sym}))
+                _fin, exits = symexec.run(h, cb, {})
+                rets = [(s_, r) for s_, r in exits if isinstance(r, ast.Return) and r.value is not None]
+                if len(rets) != 1:
+                    raise AnalysisIncomplete(f'{h.short}: {len(rets)} return paths for average={avg}, symmetric={sym}')
+                got = cb.value(rets[0][0], rets[0][1].value).canon()
+                want = set()
+                for vt in (f'{prm}.value()[0]', f'{prm}.value()'):
+                    V = Poly.atom(vt)
+                    W = Poly.atom('get_world_size(group)').inverse()
+                    scaled = (W * V) if avg else V
+                    if sym:
+                        want.add(Poly.atom(f'fill_triu(shape,{scaled.canon()})').canon())
+                        if avg:
+                            want.add((W * Poly.atom(f'fill_triu(shape,{V.canon()})')).canon())
+                    else:
+                        want.add(scaled.canon())
+                ctx.check(got in want, 'AFF-AVG', h, f'{m}: average={avg}, symmetric={sym} -> {got}', f'{m} average={avg} symmetric={sym}',
+                          f'{m}: for average={avg}, symmetric={sym} the future resolves to {got}; specified {sorted(want)[0]} '
+                          '(divide by the size of the group communicated on exactly when average, refill exactly when symmetric)', rets[0][1])
 
 
 def rule_enum_strat(ctx: Ctx) -> None:
